@@ -313,7 +313,7 @@ def main(tier, seed, only=None):
     for fam, name, fn in jobs:
         if only and not any(name.startswith(o) for o in only):
             continue
-        rep.merge_stats(explore(fn, name, timeout_ms=20000, budget_s=1500 if tier == "quick" else 5000, chunk_paths=200, chunk_s=15, validate_every=20), fam)
+        rep.merge_stats(explore(fn, name, timeout_ms=20000, budget_s=1500 if tier == "quick" else 12000, chunk_paths=200, chunk_s=15, validate_every=20), fam)
     if not only:
         rep.require_reached("H01a:overlapping-input", "H01b:ValueError", "H01b:returned")
     rep.bounds = {"H01a": "k clusters over n atoms, (n,k) in " + ("(2,2),(3,2),(3,3)" if tier == "quick" else "(2,2),(2,3),(3,2),(3,3),(4,2)") + "; arbitrary non-empty index sets, <=2 species, symbolic symmetric distance matrix, merge_threshold in [0,1], merge_radius, bond_threshold>0 symbolic",
